@@ -452,7 +452,7 @@ def run_sweep_case(bdir, wd, sc):
 # 6800: every opcode x operand samples, instruction by instruction (driver mode c15_68)
 
 LINE68_RE = re.compile(rb"^(?:[A-Za-z_][A-Za-z0-9_]*:)?\t+([^\t;][^\t]*(?:\t[^\t;][^\t]*)?)\t+;((?: [0-9A-Fa-f]{2})+)\s*$")
-ORG68_RE = re.compile(rb"^\s*org\s+\$([0-9A-Fa-f]+)\s*$")
+ORG68_RE = re.compile(rb"^\s*org\s+(?:\$([0-9A-Fa-f]+)|([0-9]+))\s*$")     # `$hex` before, decimal since the repair of das.c
 LABEL68_RE = re.compile(r"\b((?:lab|sub)_([0-9A-Fa-f]{4}))\b")
 ASLERR_RE = re.compile(r"\((\d+)\)(?::\d+)?\s*:\s*error")
 
@@ -497,7 +497,7 @@ def parse_dasl68(stdout):
     for line in stdout.split(b"\n"):
         m = ORG68_RE.match(line)
         if m:
-            addr = int(m.group(1), 16)
+            addr = int(m.group(1), 16) if m.group(1) else int(m.group(2))
             continue
         m = LINE68_RE.match(line)
         if m and addr is not None:
